@@ -138,7 +138,10 @@ def gen_workflow(rng):
             sha = u.sha()
             steps.append(("uses", f"{a}@{sha}", None, (a, sha, sha, sha)))
         elif k < 9:
-            steps.append((rng.choice(["local", "docker"]), rng.choice(["./.github/actions/x", "docker://alpine:3." + str(rng.below(9))]), None, None))
+            # local actions and container images are not repositories - also when an '@' occurs in them (a directory name, an image digest)
+            steps.append((rng.choice(["local", "docker"]), rng.choice(["./.github/actions/x", "docker://alpine:3." + str(rng.below(9)),
+                                                                       "docker://alpine@sha256:" + u.sha() + u.sha()[:24], "docker://ghcr.io/owner/img@sha256:" + u.sha() + u.sha()[:24],
+                                                                       "./.github/actions/x@v1", "./local/" + a + "@v2"]), None, None))
         else:
             steps.append(("run", "", None, None))
     return steps
